@@ -67,17 +67,45 @@ def check_record(args):
     return out
 
 
-def fill_plan_binding(chk, tier):
-    """code -> spec for the plan of the fill: single straight wires in every segmentation the program
-       offers (equal, tapered from end 1 / 2 / both, with and without a maximum), free, grounded at
-       either end, vertical and sloping; the real masks (hook, commit 381133b) must equal the plan
-       spec/FillPlan.tla derives for the abstract object (segment length classes, grounded ends,
-       vertical); TLC checks the validity invariants of the plan on every object it is given."""
-    import os, json as _json
+def abstract_model(m):
+    """the abstract model of spec/FillPlan.tla of a real Mininec object: per object the classes of exactly equal
+       / physically equal segment lengths and exactly equal direction vectors (global class numbers), per pulse
+       the two (object, segment) halves and the ground flag"""
+    import numpy as np
+
+    def classes(values, eq):
+        reps, out = [], []
+        for x in values:
+            for i_, y in enumerate(reps):
+                if eq(x, y):
+                    out.append(i_ + 1)
+                    break
+            else:
+                reps.append(x)
+                out.append(len(reps))
+        return out
+    segs = [s_ for g in m.geo for s_ in g.segments]
+    lc = classes([s_.seg_len for s_ in segs], lambda x, y: x == y)
+    pc = classes([s_.seg_len for s_ in segs], lambda x, y: abs(x - y) <= 1e-9 * y)
+    dc = classes([np.array(s_.dirvec) for s_ in segs], lambda x, y: bool((x == y).all()))
+    objs, k = [], 0
+    for g in m.geo:
+        n = len(g.segments)
+        d = g.segments[0].dirvec
+        objs.append(dict(ns=n, lc=lc[k:k + n], pc=pc[k:k + n], dc=dc[k:k + n],
+                         vertical=bool(d[0] == 0 and d[1] == 0)))
+        k += n
+    pulses = [[int(p.segs[0].geobj.n) + 1, int(p.segs[0].idx) + 1, int(p.segs[1].geobj.n) + 1,
+               int(p.segs[1].idx) + 1, bool(any(p.ground))] for p in m.pulses]
+    return dict(objs=objs, pulses=pulses)
+
+
+def plan_models(tier, rnd):
+    """real models for the fill-plan binding: single straight wires in every segmentation the program offers
+       (equal, tapered from end 1 / 2 / both, with and without a maximum), free, grounded at either end, vertical
+       and sloping; chains, bends and branches of two and three wires (tapered or not, a grounded vertical among them)"""
     import numpy as np
     from mininec.mininec import Mininec, Wire, ideal_ground
-    rnd = C.rng('c02-plan')
-    objs, models = [], []
     nrep = 2 if tier == 'quick' else 12
     for rep in range(nrep):
         for ns in (1, 2, 3, 5, 6, 9):
@@ -101,52 +129,58 @@ def fill_plan_binding(chk, tier):
                                 m = Mininec(10.0, [w], media=None if gnd == 'free' else [ideal_ground])
                             except (AssertionError, ValueError):
                                 continue
-                            if len(m.pulses) == 0:
-                                continue
-                            m.compute_impedance_matrix()
-                            plan = getattr(m, '_verif_fill_plan', None)
-                            if plan is None:
-                                raise C.Machinery('fill plan hook not active')
-                            lens = [s_.seg_len for s_ in m.geo[0].segments]
-                            cls, lc = [], []
-                            for x in lens:
-                                for i_, y in enumerate(cls):
-                                    if x == y:
-                                        lc.append(i_ + 1)
-                                        break
-                                else:
-                                    cls.append(x)
-                                    lc.append(len(cls))
-                            pcs, pc = [], []
-                            for x in lens:
-                                for i_, y in enumerate(pcs):
-                                    if abs(x - y) <= 1e-9 * y:
-                                        pc.append(i_ + 1)
-                                        break
-                                else:
-                                    pcs.append(x)
-                                    pc.append(len(pcs))
-                            dcs, dc = [], []
-                            for s_ in m.geo[0].segments:
-                                for i_, y in enumerate(dcs):
-                                    if (np.array(s_.dirvec) == y).all():
-                                        dc.append(i_ + 1)
-                                        break
-                                else:
-                                    dcs.append(np.array(s_.dirvec))
-                                    dc.append(len(dcs))
-                            g = m.geo[0]
-                            d = g.segments[0].dirvec
-                            objs.append(dict(ns=ns, lc=lc, pc=pc, dc=dc, g1=bool(g.is_ground[0]), g2=bool(g.is_ground[1]),
-                                             vertical=bool(d[0] == 0 and d[1] == 0)))
-                            models.append((m, plan, dict(ns=ns, segtype=st, taper_max=mx, ground=gnd, vertical=vertical)))
+                            yield m, dict(ns=ns, segtype=st, taper_max=mx, ground=gnd, vertical=vertical)
+    # several wires: straight continuation (same / different segment length), bend, T, grounded vertical + top wire
+    P = dict(a=(0, 0, 0), b=(0, 0, 3.0), c=(0, 0, 6.0), d=(2.5, 0, 3.0), e=(-2.5, 0, 3.0), f=(0, 0, 4.5), g=(1.0, 1.0, 5.0))
+    shapes = [[('b', 'c'), ('c', 'g')], [('a', 'b'), ('b', 'c')], [('a', 'b'), ('b', 'f')], [('b', 'a'), ('b', 'c')],
+              [('a', 'b'), ('b', 'd')], [('a', 'b'), ('b', 'd'), ('b', 'e')], [('a', 'b'), ('d', 'b'), ('b', 'c')],
+              [('e', 'b'), ('b', 'd')], [('e', 'b'), ('d', 'b')], [('b', 'c'), ('e', 'd')]]
+    for rep in range(nrep * 3):
+        for shp in shapes:
+            for ground in (False, True):
+                ws = []
+                for (p, q) in shp:
+                    n = rnd.choice([1, 2, 3, 4, 6])
+                    off = np.array([0, 0, 0.0 if ground else 1.0])
+                    w = Wire(n, *(np.array(P[p]) + off), *(np.array(P[q]) + off), 0.003)
+                    if n >= 2:
+                        w.segtype = rnd.choice([0, 0, 1, 2, 3])
+                        if n >= 5 and w.segtype and rnd.random() < 0.5:
+                            w.taper_max = 1.25 * w.wire_len / n
+                    ws.append(w)
+                try:
+                    m = Mininec(10.0, ws, media=[ideal_ground] if ground else None)
+                except (AssertionError, ValueError):
+                    continue
+                yield m, dict(shape=shp, ground=ground, segs=[w.n_segments for w in ws], segtypes=[w.segtype for w in ws])
+
+
+def fill_plan_binding(chk, tier):
+    """code -> spec for the plan of the fill: the real masks (hook, commit 381133b) of every model of plan_models
+       must equal the plan spec/FillPlan.tla derives for the abstract model (objects with segment length /
+       direction classes, pulses with their two halves and ground flags); TLC checks the validity invariants of
+       the plan on every model it is given."""
+    import os, json as _json
+    import numpy as np
+    rnd = C.rng('c02-plan')
+    objs, models = [], []
+    for m, info in plan_models(tier, rnd):
+        if len(m.pulses) == 0:
+            continue
+        m.compute_impedance_matrix()
+        plan = getattr(m, '_verif_fill_plan', None)
+        if plan is None:
+            raise C.Machinery('fill plan hook not active')
+        objs.append(abstract_model(m))
+        models.append((m, plan, info))
     wd = C.workdir('plan-c02')
     tf = os.path.join(wd, 'objs.json')
     _json.dump(objs, open(tf, 'w'))
     cfg = os.path.join(wd, 'Plan.cfg')
-    open(cfg, 'w').write('CONSTANTS MaxSeg = 1\n MaxClass = 1\n EqualAcrossPulses = TRUE\n FromFile = TRUE\n'
+    open(cfg, 'w').write('CONSTANTS MaxSeg = 1\n MaxClass = 1\n MaxSeg2 = 0\n EqualAcrossPulses = TRUE\n FromFile = TRUE\n'
                          'INIT Init\nNEXT Next\nINVARIANT ShortcutOnlyIfUniform\nINVARIANT OriginIsComputed\n'
-                         'INVARIANT OriginIsCongruent\nINVARIANT CopiedSourceNotGrounded\nINVARIANT Dump\nCHECK_DEADLOCK FALSE\n')
+                         'INVARIANT OriginIsCongruent\nINVARIANT CopiedSourceNotGrounded\nINVARIANT JunctionsInFull\n'
+                         'INVARIANT Dump\nCHECK_DEADLOCK FALSE\n')
     res = C.tlc('FillPlan', os.path.relpath(cfg, C.SPEC), name='plan-run-c02', workers=4, env=dict(TRACE_FILE=tf))
     if res.violated:
         chk.violation(dict(kind='fill-plan-invalid', invariant=res.violated), dict(tail=res.out[-2500:]))
@@ -157,13 +191,15 @@ def fill_plan_binding(chk, tier):
     plans = {d_['tid']: d_ for d_ in res.printed()}
     if len(plans) != len(objs):
         raise C.Machinery('FillPlan returned %d plans for %d objects' % (len(plans), len(objs)))
+    nshort = 0
     for k, (m, plan, info) in enumerate(models):
         sp = plans[k + 1]
         n = sp['np']
-        chk.case(dict(o=objs[k]), n >= 2, sample=dict(object=objs[k], built_as=info))
+        chk.case(dict(o=objs[k]), n >= 2, sample=dict(model=objs[k], built_as=info))
         chk.traces += 1
         opt = np.array(plan['opt'])
         exp_opt = np.array(sp['plan']['opt']).reshape(n, n)
+        nshort += int((exp_opt > 0).any())
         bad = None
         if opt.shape != (n, n) or not np.array_equal(opt, exp_opt):
             bad = 'opt'
@@ -191,8 +227,11 @@ def fill_plan_binding(chk, tier):
             if bad is None and not np.array_equal(comp, real_comp):
                 bad = 'computed'
         if bad:
-            chk.violation(dict(kind='fill-plan-differs-from-spec', what=bad), dict(object=objs[k], built_as=info))
+            chk.violation(dict(kind='fill-plan-differs-from-spec', what=bad, several_objects=len(objs[k]['objs']) > 1),
+                          dict(model=objs[k], built_as=info))
     chk.cov['fill_plans_validated'] = len(models)
+    chk.cov['fill_plans_with_several_objects'] = sum(1 for o in objs if len(o['objs']) > 1)
+    chk.cov['fill_plans_with_a_shortcut'] = nshort
 
 
 def history_case(args):
